@@ -133,6 +133,16 @@ def bsearchFound {α} (l : List α) (f : α → Ordering) : Bool :=
     | some x => f x = .eq
     | none => false
 
+/-- a changed byte range `[r.1, r.2)` of the line reaches into the columns `(sc, ec]` / `(sc, ec)` of the block -/
+def touches (incl : Bool) (sc : Nat) (ec : Option Nat) (r : Nat × Nat) : Bool :=
+  decide (r.2 > sc) && (match ec with
+    | none => true
+    | some x => if incl then decide (r.1 ≤ x) else decide (r.1 < x))
+
+/-- the comparator handed to `binary_search_by` -/
+def rangeCmp (incl : Bool) (sc : Nat) (ec : Option Nat) (r : Nat × Nat) : Ordering :=
+  if touches incl sc ec r then .eq else if r.2 ≤ sc then .lt else .gt
+
 /-- `intersects_with_line_change` (content: half-open end) / `_inclusive` (start tag: closed end).
     `checked` subtraction: a column of 0 would underflow in Rust; positions are 1-based. -/
 def hit (incl : Bool) (s e : Pos) (c : LC) : Bool :=
@@ -143,11 +153,7 @@ def hit (incl : Bool) (s e : Pos) (c : LC) : Bool :=
     | some rs =>
       let sc := if c.line = s.line then s.col - 1 else 0
       let ec : Option Nat := if c.line < e.line then none else some (e.col - 1)
-      bsearchFound rs (fun r =>
-        if decide (r.2 > sc) && (match ec with
-            | none => true
-            | some x => if incl then decide (r.1 ≤ x) else decide (r.1 < x)) then .eq
-        else if r.2 ≤ sc then .lt else .gt)
+      bsearchFound rs (rangeCmp incl sc ec)
 
 /-- `content_intersects_with_any` / `start_tag_intersects_with_any` (linear scan after the fix) -/
 def contentModified (b : Block) (cs : List LC) : Bool := cs.any (hit false b.cPosStart b.cPosEnd)
